@@ -135,14 +135,17 @@ def harness(S, spec):
     S.assume(all(v <= 1 for v in refs.values()))
     # reachability of the pre-state (strengthened invariant):
     #  - a cleanup link named after the *container* is made by _terminate,
-    #    which runs when that generation's cache entry is gone or replaced;
+    #    which runs when that generation's cache entry is gone or replaced, or
+    #    by _synchronize for a finished container;
     #  - a cleanup link named after the *instance* is made by the monitor
     #    (container finished on its own) or by _synchronize for a container
     #    that is finished or has no cache entry;
     #  - while the manager is active the running link follows the cache.
     for g in ('g1', 'g2'):
         if os.path.lexists(os.path.join(dirs['cleanup'], cname[g])):
-            S.assume(cache != g)
+            # (_synchronize also uses this name for a finished container of
+            # the cached generation when cleanup/<instance> is taken)
+            S.assume(cache != g or marker[g] is not None)
     if ci:
         g = 'g%d' % ci
         S.assume(marker[g] is not None or cache != g)
@@ -316,86 +319,10 @@ def harness(S, spec):
                 {'before': before_run, 'after': running})
 
 
-def _links_at_failure(S):
-    if not S.trace:
-        return None, None
-    _t, running, cleanup = S.trace[-1]
-    return running, cleanup
-
-
-def _known_s5(S, label):
-    """S5: _terminate names the cleanup link after the container, _synchronize
-    looks for (and creates) one named after the instance: the same container
-    ends up behind both."""
-    if label != 'C13:container_referenced_by_more_than_one_link':
-        return False
-    running, cleanup = _links_at_failure(S)
-    if cleanup is None:
-        return False
-    for c in set(cleanup.values()):
-        names = sorted(n for n, t in cleanup.items() if t == c)
-        if len(names) == 2 and INST in names and c in names and \
-                c not in running.values():
-            return True
-    return False
-
-
-def _two_generations(S):
-    return S.named.get('container_g1_present') and \
-        S.named.get('container_g2_present')
-
-
-def _known_sync_other_generation(S, label):
-    """_synchronize keys running/ by instance name while it walks containers:
-    the container of another generation of the same instance makes it move
-    the current generation's running link to cleanup."""
-    if not _two_generations(S):
-        return False
-    if label == 'C13:unchanged_running_container_disturbed':
-        return True
-    if label == 'C13:container_without_cache_entry_not_in_cleanup':
-        # same event seen from the other container: the sync spent its visit
-        # of the uncached container on terminating running/<instance> (a
-        # cleanup link named after the *cached* generation's container shows
-        # it) and left the uncached container itself without a link
-        running, cleanup = _links_at_failure(S)
-        cur = (S.notes.get('cname') or {}).get(
-            (S.notes.get('pre') or {}).get('cache'))
-        return cleanup is not None and cur is not None and cur in cleanup
-    return False
-
-
-def _known_sync_pops_cache_entry(S, label):
-    """after _synchronize terminated (or skipped) a container of another
-    generation it drops the instance from its to-do list, so the cached
-    manifest of the current generation is not configured by that sync."""
-    if label != 'C13:cached_manifest_not_running_after_sync':
-        return False
-    pre = S.notes.get('pre') or {}
-    stale_link = pre.get('running') not in (None, 'none') and \
-        'g' + pre['running'][1] != pre.get('cache')
-    other_present = any(v for g, v in (pre.get('present') or {}).items()
-                        if g != pre.get('cache'))
-    return bool(stale_link or other_present)
-
-
-def _known_cleanup_by_instance_hides_other(S, label):
-    """cleanup/<instance> of one generation makes _synchronize skip the other
-    generation's container ("already in cleanup")."""
-    if label != 'C13:container_without_cache_entry_not_in_cleanup':
-        return False
-    running, cleanup = _links_at_failure(S)
-    return bool(_two_generations(S)) and cleanup is not None and \
-        INST in cleanup and not running
-
-
-KNOWN = [('C13-S5-cleanup-link-naming', _known_s5),
-         ('C13-sync-terminates-current-generation',
-          _known_sync_other_generation),
-         ('C13-sync-does-not-configure-current-generation',
-          _known_sync_pops_cache_entry),
-         ('C13-cleanup-by-instance-hides-other-generation',
-          _known_cleanup_by_instance_hides_other)]
+# The four defects of _synchronize that used to be listed known findings (two
+# generations of one instance) were repaired in /repo (d1bb430); nothing is
+# masked any more.
+KNOWN = []
 
 TWINS = ['cache_g1-run_none-created-active']
 
